@@ -647,8 +647,14 @@ def run_numeric(ctx, thorough):
         return
     dist = {}
     maxdev = {}
+    trunc_items = []
     for c, r in zip(cases, res):
         k = c['k']
+        if k == 'trunc_rank' and r.get('status') == 'Ok':
+            # the model's greedy loop (Model.find_truncation_rank, theorem truncation_error_bound) at R = Z
+            trunc_items.append(('((%s, %s), %s, %s)' % (CQ.c_shape(c['X']['sh']), clist(c['X']['d'], CQ.zi), cz(c['m']),
+                                                       CQ.c_shape(r['shape'])),
+                                {'case': c, 'impl': r, 'how': 'tensor.find_truncation_rank(X, sqrt(m + 0.5))'}, 'trunc', None))
         dist[k] = dist.get(k, 0) + 1
         ctx.count(('num', repr(c)), nontrivial=True)
         bad = None
@@ -731,5 +737,6 @@ def run_numeric(ctx, thorough):
         if bad:
             ctx.report('impl:numeric:%s' % k, bad, {'case': c, 'impl': {kk: v for kk, v in r.items() if kk not in ('dense',)},
                                                     'how': 'harness/impl/c18_driver.py mode num'})
+    coq_run(ctx, 'C18_trunc', 'zcheck_trunc', trunc_items, 'find_truncation_rank', per=100)
     ctx.cov['input_distribution']['numeric'] = dist
     ctx.cov['largest_observed_deviation_over_bound'] = {k: float('%.3g' % v) for k, v in maxdev.items()}
